@@ -73,6 +73,10 @@ def cases(tier, seed):
         cs.append({'kind': 'e2e', 'seed': seed * 15485863 + i, 'zero': i % 3 == 2, 'wide': True})
     for i in range(16 if tier == 'quick' else 200):
         cs.append({'kind': 'e2e', 'seed': seed * 32452843 + i, 'zero': True, 'wide': 'tile-edge'})
+    # wide depthwise-separable stage: the convolution and the depthwise convolution behind it share
+    # ONE weight quantizer (one set of per-channel coefficients for two layers)
+    for i in range(12 if tier == 'quick' else 200):
+        cs.append({'kind': 'e2e', 'seed': seed * 49979687 + i, 'zero': i % 3 == 2, 'wide': 'dwsep'})
     return cs
 
 
@@ -217,6 +221,17 @@ def ne16_program(rng, wide=False):
         b.shapes['x0'] = (c0, H, W)
         b.origin['x0'] = 'input'
         edge = wide == 'tile-edge'
+        if wide == 'dwsep':
+            t = b.conv('x0', cout=rng.randint(33, 72), k=rng.choice([1, 3]), d=1, s=1, pad='same')
+            t = b.act(t, 'relu_mod')
+            t = b.conv(t, dw=True, k=3, d=1, s=1, pad='same')
+            t = b.act(t, 'relu_mod')
+            t = b.conv(t, cout=rng.randint(8, 40), k=1, d=1, s=1, pad='same')
+            t = b.act(t, 'relu_mod')
+            t = b.flat(b.pool(t, 'aavg'))
+            t = b.lin(t, fout=rng.randint(2, 4))
+            return {'family': '2d', 'inputs': [[c0, H, W]], 'ops': b.ops, 'out': t, 'excluded': [],
+                    'features': sorted(b.features) + ['wide', 'wide-dwsep'], 'traits': []}
         # 'tile-edge': the first layer is a few channels wider than a multiple of 16 (run_e2e prunes
         # exactly those), followed by an expensive 3x3 layer: one more alive channel in the first
         # layer costs a whole extra input tile in the second
@@ -315,6 +330,14 @@ def run_e2e(case, ctx):
                             elif int(q.alpha.data[:, c].argmax()) == zr:
                                 q.alpha.data[zr, c] = -2.0
         ctx.cls('e2e-tile-edge')
+    # layers that share their weight quantizer (identity) with another layer
+    owners = {}
+    for lname, L in mpslib.mps_layers(mps):
+        q = getattr(L, 'w_mps_quantizer', None)
+        if q is not None:
+            owners.setdefault(id(q), []).append(lname)
+    shared_with = {n: [o for o in names_ if o != n] for names_ in owners.values() for n in names_}
+    any_shared = any(shared_with.values())
     with torch.no_grad():
         mps(mps._input_example)
     before = bits_of(mps.summary())
@@ -372,7 +395,8 @@ def run_e2e(case, ctx):
         call = next((c for c in calls if c['scores'].shape[1] == len(b) and
                      c.get('used') is None and len(c['best']) == len(qprec)), None)
         chosen = None
-        flags = {'unsorted_precisions': qprec != sorted(qprec), 'precision_order': qprec}
+        flags = {'unsorted_precisions': qprec != sorted(qprec), 'precision_order': qprec,
+                 'weight_quantizer_shared_with': shared_with.get(name, [])}
         if call is not None:
             call['used'] = name
             chosen = {p: int(round(x)) for p, x in zip(qprec, call['best'])}
@@ -445,6 +469,7 @@ def run_e2e(case, ctx):
     if cost_after > cost_before * (1 + 1e-6):
         ctx.violation('cost-increase', {
             'sig': 'cost', 'before': cost_before, 'after': cost_after, 'w_prec': w_prec,
+            'model_has_shared_weight_quantizer': any_shared,
             'reassign_count_mismatch_layers': len(count_mismatch),
             'layers_with_invalid_targets': sum(1 for f in any_flags if not f['targets_valid']),
             'layers_with_off_by_one_step_targets': sum(
@@ -478,10 +503,13 @@ def run_e2e(case, ctx):
             dem = [(i, x, y) for i, (x, y) in enumerate(zip(a, a2)) if y < x]
             if dem:
                 ctx.violation('channel-demotion', {'sig': 'demotion:second-call', 'layer': name,
-                                                   'before': a, 'after': a2, 'demoted': dem[:6]})
+                                                   'before': a, 'after': a2, 'demoted': dem[:6],
+                                                   'weight_quantizer_shared_with':
+                                                       shared_with.get(name, [])})
         if cost_again > cost_after * (1 + 1e-6):
             ctx.violation('cost-increase', {'sig': 'cost:second-call', 'before': cost_after,
-                                            'after': cost_again, 'w_prec': w_prec})
+                                            'after': cost_again, 'w_prec': w_prec,
+                                            'model_has_shared_weight_quantizer': any_shared})
         for c in _rec['calls']:
             if c['witness'] is not None:
                 ctx.violation('reassign-counts', dict(c['witness'], sig='counts:second-call'))
